@@ -20,7 +20,7 @@ func init() {
 			"(d) every value stored into the executionConfig field outside the constructor is either derived from a load of that field (keep current) or is the fetched value on the edge where the fetch error is nil and the value is non-nil; the store is under the write lock; " +
 			"(e) New stores a non-nil configurator before the first fetch and every call through the field is guarded by a nil test or follows (e); (f) the configurator is called with the service's fallback fee recipient and gas limit; " +
 			"(g) every blocking select/receive in the package has a context-done or timer arm. " +
-			"Added with the third seeding round: (j) the v1/v2 resolvers write nothing reached from the configuration object; (k) no errors.Wrap of an error that is nil on every path to it (a rejection reported as success). Added with the fourth seeding round: (l) semaphore probes give the permit back; (m) wait groups balance; (n) no TryLock/TryRLock. Added with the fifth seeding round: (o) a method of the account parameter of a resolver is called only behind account != nil. Added with the sixth seeding round and the false-alarm regression: (i, tightened) the unmarshaler's nil-entry test must be on the decoded document's collection, not on the receiver's field of the same name. Added with the eighth seeding round: (a, extended) lock pairing also over util (the builder client cache and its package-level mutex). NOT decided: that the HTTP fetch returns (library timeout), RWMutex fairness, the interleavings themselves; but pairing + no re-entrancy + nothing slow under the lock mean no schedule can leave the lock held.",
+			"Added with the third seeding round: (j) the v1/v2 resolvers write nothing reached from the configuration object; (k) no errors.Wrap of an error that is nil on every path to it (a rejection reported as success). Added with the fourth seeding round: (l) semaphore probes give the permit back; (m) wait groups balance; (n) no TryLock/TryRLock. Added with the fifth seeding round: (o) a method of the account parameter of a resolver is called only behind account != nil. Added with the sixth seeding round and the false-alarm regression: (i, tightened) the unmarshaler's nil-entry test must be on the decoded document's collection, not on the receiver's field of the same name. Added with the eighth seeding round: (a, extended) lock pairing also over util (the builder client cache and its package-level mutex). Added with the tenth seeding round: (n) fetchExecutionConfig is called directly only from New (the refresh has its own job). NOT decided: that the HTTP fetch returns (library timeout), RWMutex fairness, the interleavings themselves; but pairing + no re-entrancy + nothing slow under the lock mean no schedule can leave the lock held.",
 		Technique: "lock-set dataflow (pairing, re-entrancy via call graph), call-graph reachability of network calls under the lock, provenance of stored configuration by phi leaves and error-edge guards",
 		Rule:      "obligations are enumerated per function of the package (pairing, re-entrancy), per call site under the configuration lock (c), per leaf value of each store to the field (d), per invoke through the field (e,f), per select (g); non-trivial = the function contains a lock operation / the site exists",
 	})
